@@ -1,9 +1,19 @@
 #!/bin/sh
-# For every regression trace: must fire on the original tree (worktree given as $1) and not on /repo.
-ORIG="${1:-/tmp/orig}"
+# For every regression trace: must fire on the original tree and not on /repo.
+# The original tree is a scratch worktree of commit d385b73 (created here, removed afterwards)
+# unless a directory is given as $1.
+ORIG="${1:-}"
 cd "$(dirname "$0")/.."
+made=""
+if [ -z "$ORIG" ]; then
+  ORIG="$(mktemp -d /tmp/orig-XXXXXX)"; rmdir "$ORIG"
+  git -C /repo worktree add --detach "$ORIG" d385b73 >/dev/null 2>&1 || { echo "cannot create worktree"; exit 2; }
+  made=1
+fi
 for f in regressions/*.json; do
   a=$(DSIM_REPO="$ORIG" ./check X --replay "$f" 2>/dev/null | grep -c '^VIOLATION')
   b=$(./check X --replay "$f" 2>/dev/null | grep -c '^VIOLATION')
   echo "$f orig_fires=$a repo_fires=$b"
 done
+[ -n "$made" ] && git -C /repo worktree remove --force "$ORIG" >/dev/null 2>&1
+exit 0
